@@ -116,6 +116,23 @@ func (ns *netState) conversions(i int, hnum uint64) {
 		}
 		return w.QiTx(ins, []hnet.QiOut{{Denom: maxD - 1, Addr: to}}, nil)
 	}
+	// Qi -> Quai conversion to the silent recipient
+	if i%5 == 2 {
+		if u, ok := takeBig(); ok {
+			refund := w.Qi[5].Addr.Bytes()
+			if string(refund) == string(u.Addr) {
+				refund = w.Qi[4].Addr.Bytes()
+			}
+			data := append([]byte{0x23, 0x28}, refund...) // slip tolerance 9000/10000 (the maximum): never reverted for slippage
+			tx, err := w.QiTx([]hnet.Utxo{u}, []hnet.QiOut{{Denom: u.Denom - 1, Addr: ns.convTo.Bytes()}}, data)
+			if err == nil {
+				if x.submit("qi-to-quai", tx) == nil {
+					ns.lateSpent[opk(u.Hash, u.Index)] = int(hnum) + 1
+				}
+			}
+		}
+	}
+	earlyLeft, lateLeft := 1, 2
 	// probes on locked reward / conversion outputs
 	for _, u := range owned {
 		k := opk(u.Hash, u.Index)
@@ -124,7 +141,8 @@ func (ns *netState) conversions(i int, hnum uint64) {
 			continue
 		}
 		switch {
-		case lock > hnum+2 && !ns.earlyTried[k]:
+		case lock > hnum+2 && !ns.earlyTried[k] && earlyLeft > 0:
+			earlyLeft--
 			ins := []hnet.Utxo{u}
 			if u.Denom < 7 {
 				big, ok := takeBig()
@@ -148,7 +166,8 @@ func (ns *netState) conversions(i int, hnum uint64) {
 			if len(ins) > 1 {
 				ns.lateSpent[opk(ins[1].Hash, ins[1].Index)] = -1 // do not reuse the fee input while that tx may be pending
 			}
-		case lock <= hnum+1 && ns.lateSpent[k] == 0:
+		case lock <= hnum+1 && ns.lateSpent[k] == 0 && lateLeft > 0:
+			lateLeft--
 			ins := []hnet.Utxo{u}
 			if u.Denom < 7 {
 				big, ok := takeBig()
@@ -178,22 +197,6 @@ func (ns *netState) conversions(i int, hnum uint64) {
 				}
 			} else {
 				x.m.Extra("late_spend_pool_error", err.Error())
-			}
-		}
-	}
-	// Qi -> Quai conversion to the silent recipient
-	if i%5 == 2 {
-		if u, ok := takeBig(); ok {
-			refund := w.Qi[5].Addr.Bytes()
-			if string(refund) == string(u.Addr) {
-				refund = w.Qi[4].Addr.Bytes()
-			}
-			data := append([]byte{byte(x.r.Intn(0x23)), byte(x.r.Intn(256))}, refund...)
-			tx, err := w.QiTx([]hnet.Utxo{u}, []hnet.QiOut{{Denom: u.Denom - 1, Addr: ns.convTo.Bytes()}}, data)
-			if err == nil {
-				if x.submit("qi-to-quai", tx) == nil {
-					ns.lateSpent[opk(u.Hash, u.Index)] = int(hnum) + 1
-				}
 			}
 		}
 	}
@@ -306,7 +309,7 @@ func (ns *netState) injectShares(wo *types.WorkObject) {
 		kind := "own"
 		if ns.sc.crafted && (k > 0 || ns.sc.shares == 1) {
 			lb := uint8(x.r.Intn(4))
-			switch v := x.r.Intn(6); {
+			switch v := x.r.Intn(7); {
 			case v == 0:
 				h.SetPrimaryCoinbase(ns.sharePay[0])
 				h.SetData([]byte{lb})
@@ -327,6 +330,15 @@ func (ns *netState) injectShares(wo *types.WorkObject) {
 				h.SetPrimaryCoinbase(ns.sharePay[0])
 				h.SetData([]byte{lb, 1, 2, 3, 4, 5})
 				kind = "other-quai-miner:malformed"
+			case v == 5 && wo.PrimeTerminusNumber().Uint64() >= params.ControllerKickInBlock && num > 14:
+				h.SetPrimaryCoinbase(ns.sharePay[1])
+				if ns.owner != nil && x.r.Intn(2) == 0 {
+					h.SetData(append(append([]byte{lb}, ns.owner.addr.Bytes()...), ns.claimQi.Addr.Bytes()...))
+					kind = "other-qi-miner:contract+delegate"
+				} else {
+					h.SetData([]byte{lb, 9, 9})
+					kind = "other-qi-miner:malformed"
+				}
 			}
 		}
 		found := false
